@@ -43,6 +43,21 @@ theorem fixed_window_runs_le (p : Rate.Params) (hp : 0 < p.period) (calls : List
   rw [List.all_eq_true]
   exact fun w hw => Rate.windowHolds_of_runsFirst (h w hw)
 
+/-- **At most `limit` runs per `period` whenever `ttl ≥ period`.**  If the ban is not shorter than the
+period, every counter window lasts at least `period`, the windows follow each other in time, and so the
+stretch of length `period` that starts with the first counted call of any window contains at most
+`limit` runs of the function.  (Stretches that start elsewhere may straddle two windows and contain up
+to `2·limit − 1` runs — inherent to fixed windows, see the example below; and with `ttl < period` a
+window can be cut short by the ban, see the other example.) -/
+theorem fixed_window_per_period (p : Rate.Params) (hp : 0 < p.period) (httl : p.period ≤ p.effTtl) (calls : List Nat) :
+    ∀ w ∈ windows p.period p.effTtl [] (Rate.run p TtlMap.init calls), ∀ e0, w.head? = some e0 →
+      runsIn (Rate.run p TtlMap.init calls) e0.ts p.period ≤ p.limit := by
+  intro w hw e0 he0
+  have hchrono := Rate.windows_chrono p hp calls TtlMap.init [] ⟨fun _ => rfl, fun h => absurd rfl h⟩
+    (by intro i e h; simp at h) ⟨by simp, by simp, by simp⟩
+  have := Rate.chrono_count p.limit p.period p.effTtl httl _ hchrono (fixed_window_runs_le p hp calls).1 w hw e0 he0
+  rwa [fixed_window_partition] at this
+
 /-! ## `slice_rate_limit` (sliding log) -/
 
 /-- **Sliding window.**  For strictly increasing call instants, every half-open interval of length
@@ -232,6 +247,14 @@ example : windows 8 16 [] (Rate.run ⟨2, 8, some 16⟩ TtlMap.init [0, 1, 1, 6,
 /-- a fixed window bounds runs per *counter window*, not per arbitrary interval: limit 2, period 1 s, calls at
 0, ⅞, 1, 1⅛ s all run — three of them inside [⅞, 1⅞) (inherent to fixed windows; not judged) -/
 example : runsIn (Rate.run ⟨2, 8, none⟩ TtlMap.init [0, 7, 1, 1]) 7 8 = 3 := by decide
+
+/-- with a ban shorter than the period (`ttl < period`) the counter lapses early: limit 1, period 1 s, ban ⅛ s,
+calls at 0 (runs), ⅛ (rejected, ban until ¼), ¼ s (runs) — two runs within one period; the hypothesis
+`period ≤ ttl` of `fixed_window_per_period` is needed -/
+example : runsIn (Rate.run ⟨1, 8, some 1⟩ TtlMap.init [0, 1, 1]) 0 8 = 2 := by decide
+
+/-- …and is satisfiable: the default (`ttl` not given) is `ttl = period` -/
+example : (⟨2, 8, none⟩ : Rate.Params).period ≤ (⟨2, 8, none⟩ : Rate.Params).effTtl := by decide
 
 /-- `StrictlyIncreasing` is satisfiable by a history that straddles a window boundary -/
 example : StrictlyIncreasing [0, 4, 4, 1] := by decide
